@@ -347,7 +347,10 @@ static carquet_status_t flush_row_group(carquet_writer_t* writer) {
 
         parquet_column_metadata_t* meta = &chunk->metadata;
         meta->type = col_info->type;
-        meta->codec = col_info->compression;
+        /* The LZ4 codec tag (5) is the deprecated Hadoop-framed LZ4; carquet
+         * stores bare LZ4 blocks, which is what LZ4_RAW (7) denotes */
+        meta->codec = (col_info->compression == CARQUET_COMPRESSION_LZ4) ?
+            CARQUET_COMPRESSION_LZ4_RAW : col_info->compression;
         meta->num_values = col_info->num_values;
         meta->total_compressed_size = col_info->total_compressed_size;
         meta->total_uncompressed_size = col_info->total_uncompressed_size;
